@@ -4,10 +4,11 @@ SPECIFICATION Spec
 CONSTANTS N = 3
           MaxCrashes = 2
           MaxFails = 1
+          MtLen = 3
           CaseN = 2
           CaseCrashes = 2
           CaseKinds = {"L1", "E", "L2"}
           CasePre = {"absent", "partial", "complete"}
-INVARIANTS C35_RecordedWereSeenComplete C35_SuccessfulSyncShippedAll C28_Holds
+INVARIANTS C35_PrunedOnlyWhenShipped C35_LocalDeleteOnlyWhenShipped C35_RecordedWereSeenComplete C35_SuccessfulSyncShippedAll C28_Holds
 PROPERTIES EventuallyShipped
 CHECK_DEADLOCK FALSE
